@@ -24,7 +24,7 @@ open Gojq Gojq.VM
 
 /-- an instruction without its JSON constant -/
 inductive Shape where
-  | nop | push | pop | dup | const
+  | nop | push (arr : Bool) | pop | dup | const
   | load (id i : Int) | store (id i : Int) | object (n : Int) | append (id i : Int)
   | fork (t : Int) | forktrybegin (t : Int) | forktryend | forkalt (t : Int) | forklabel (id i : Int)
   | backtrack | jump (t : Int) | jumpifnot (t : Int) | index (nn : Bool) | indexarray (nn : Bool)
@@ -38,8 +38,13 @@ def nonNull : JV → Bool
   | .null => false
   | _ => true
 
+/-- the constant is an array (the accumulator of `[q]` starts as `push []`) -/
+def isArrJV : JV → Bool
+  | .arr _ => true
+  | _ => false
+
 def shape : Instr → Shape
-  | .nop => .nop | .push _ => .push | .pop => .pop | .dup => .dup | .const _ => .const
+  | .nop => .nop | .push v => .push (isArrJV v) | .pop => .pop | .dup => .dup | .const _ => .const
   | .load a b => .load a b | .store a b => .store a b | .object n => .object n | .append a b => .append a b
   | .fork t => .fork t | .forktrybegin t => .forktrybegin t | .forktryend => .forktryend
   | .forkalt t => .forkalt t | .forklabel a b => .forklabel a b | .backtrack => .backtrack
@@ -106,7 +111,7 @@ structure Abs where
     exactly one entry, the result). -/
 def step1 (code : Array Shape) (tab : List (Int × Nat)) (nvars : Nat) (pc : Nat) (a : Abs) : Shape → Option (List (Int × Abs))
   | .nop => some [((pc : Int) + 1, a)]
-  | .push => some [((pc : Int) + 1, { a with h := a.h + 1 })]
+  | .push _ => some [((pc : Int) + 1, { a with h := a.h + 1 })]
   | .pop => if 1 ≤ a.h then some [((pc : Int) + 1, { a with h := a.h - 1 })] else none
   | .dup => if 1 ≤ a.h then some [((pc : Int) + 1, { a with h := a.h + 1 })] else none
   | .const => if 1 ≤ a.h then some [((pc : Int) + 1, a)] else none
@@ -265,7 +270,7 @@ def kindOfCode (k : Int) : NativeKind :=
     which the driver's parser maps to "calln") -/
 def viewS (i : Instr) : Opt.Instr :=
   match i with
-  | .nop => { op := "nop" } | .push _ => { op := "push" } | .pop => { op := "pop" } | .dup => { op := "dup" }
+  | .nop => { op := "nop" } | .push v => { op := "push", arg := if isArrJV v then "arr" else "_" } | .pop => { op := "pop" } | .dup => { op := "dup" }
   | .const _ => { op := "const" }
   | .load a b => { op := "load", ints := [a, b] } | .store a b => { op := "store", ints := [a, b] }
   | .object n => { op := "object", tgt := some n } | .append a b => { op := "append", ints := [a, b] }
@@ -285,10 +290,11 @@ def viewS (i : Instr) : Opt.Instr :=
 
 /-- the shape of a dumped instruction; anything unexpected is `bad` (rejected) -/
 def shapeV (i : Opt.Instr) : Shape :=
+  if i.op == "push" then .push (i.arg == "arr") else
   if i.op == "index" then .index (i.arg != "null") else
   if i.op == "indexarray" then .indexarray (i.arg != "null") else
   match i.op, i.tgt, i.ints with
-  | "nop", _, _ => .nop | "push", _, _ => .push | "pop", _, _ => .pop | "dup", _, _ => .dup
+  | "nop", _, _ => .nop | "pop", _, _ => .pop | "dup", _, _ => .dup
   | "const", _, _ => .const
   | "load", _, [a, b] => .load a b | "store", _, [a, b] => .store a b
   | "object", some n, _ => .object n | "append", _, [a, b] => .append a b
@@ -324,6 +330,9 @@ def parseDump (tok : String) : Option Opt.Instr :=
         | some n => some { op := "calln", arg := arg, ints := [nativeKindCode name, n] }
         | none => none
       | _ => none
+    else if op == "push" then
+      -- `v5b…` is the wire form `[ … ]` of an array constant
+      some { op := op, arg := if arg.startsWith "v5b" then "arr" else "_" }
     else if op == "index" || op == "indexarray" then
       -- `v6e` is the wire form `n` of a nil constant
       some { op := op, arg := if arg == "v6e" then "null" else "_" }
